@@ -1,0 +1,22 @@
+//go:build verif
+
+package system
+
+// Contracts for package system. Comments only; read by /verif (build tag "verif").
+
+//@ ghost var reads Int
+//@ ghost var writes Int
+//@ ghost var lastWriteDst Addr
+//@ ghost var lastWriteMsg Iface
+
+// Interface contract of system.Conn (assumed for the external implementation
+// ndp.Conn; the in-repo test double is outside the verified scope).
+//@ iface system.Conn.ReadFrom(self) (m, cm, host, err)
+//@   assigns ghost.reads
+//@   ensures R1: ghost.reads == old(ghost.reads) + 1
+//@   ensures R2: err == nil ==> cm != nil && m != nil
+//@   ensures R3: !isPkgSentinel(err)
+//@ iface system.Conn.SetReadDeadline(self, t) (err)
+//@ iface system.Conn.WriteTo(self, m, cm, dst) (err)
+//@   assigns ghost.writes, ghost.lastWriteDst, ghost.lastWriteMsg
+//@   ensures W1: ghost.writes == old(ghost.writes) + 1 && ghost.lastWriteDst == dst && ghost.lastWriteMsg == m
